@@ -211,6 +211,9 @@ def same(a, b, depth=0):
         return a.d.get("name") == b.d.get("name") and a.d.get("variant") == b.d.get("variant") and same(a.kids[0], b.kids[0], depth + 1)
     if a.kind == "index":
         return False
+    if a.kind == "call":
+        # the same call site seen through two value graphs of one function (e.g. one built with infeasible edges removed)
+        return a.fn is b.fn and a.d.get("bb") is not None and a.d.get("bb") == b.d.get("bb")
     return False
 
 
@@ -543,6 +546,15 @@ class FnVals:
             if a.get("kind") in ("adt", "tuple", "closure") and idx < len(base.kids):
                 if a.get("kind") != "adt" or True:
                     return base.kids[idx]
+        if base.kind == "phi" and base.kids and adt not in ("std::option::Option", "std::result::Result", "std::ops::ControlFlow"):
+            # a field of a merge of tuple / struct literals is the merge of their components (exact): `let (a, b) = match .. { A => (x, None), B => (y, Some(d)) }`
+            alts = base.kids
+            if all(k.kind == "agg" and k.d["agg"].get("kind") in ("tuple", "adt") and not k.d["agg"].get("variant") and idx < len(k.kids) for k in alts):
+                picks = []
+                for k in alts:
+                    if not any(k.kids[idx] is q for q in picks):
+                        picks.append(k.kids[idx])
+                return picks[0] if len(picks) == 1 else V("phi", {}, picks, fn=self.fn)
         if base.kind == "withfield":
             path = base.d["path"]
             if path and path[0] == name:
@@ -650,7 +662,7 @@ class FnVals:
             return self.at_operand(rv["op"], bb, i)
         if "aggregate" in rv:
             kids = [self.at_operand(o, bb, i) for o in rv["ops"]]
-            return V("agg", dict(agg=rv["aggregate"]), kids, fn=fn)
+            return V("agg", dict(agg=rv["aggregate"], bb=bb), kids, fn=fn)
         if "binop" in rv:
             return V("binop", dict(op=rv["binop"]), [self.at_operand(rv["l"], bb, i), self.at_operand(rv["r"], bb, i)], fn=fn)
         if "unop" in rv:
